@@ -142,6 +142,45 @@ def run(ctx: Ctx) -> None:
                     vals2.append(code(v2))
         add("equal", f"renumbering:hex+neighbour:{name}", codes=vals, tol=5)
         add("equal", f"renumbering:neighbour-of-hex:{name}", codes=vals2, tol=5)
+    # the SAME grid object after its points were moved (optimizer, smoother): a rigid motion applied point by point through
+    # GridBase.update() leaves every value as it was, and equal to that of a grid built anew at the moved points
+    import numpy as np
+    from classy_blocks.optimize.grid import HexGrid, QuadGrid
+    from .c07 import rot as rot_own
+
+    def moved_grid(kind, pts, addressing, what):
+        a, ax, o, d = rng.uniform(0.3, 1.2), [rng.uniform(-1, 1) for _ in range(3)], [rng.uniform(-1, 1) for _ in range(3)], [rng.uniform(-3, 3) for _ in range(3)]
+        target = [[c + d[i] for i, c in enumerate(rot_own(p, a, ax, o))] for p in pts]
+        cls = HexGrid if kind == "hex" else QuadGrid
+
+        def run():
+            grid = cls(np.array(pts, dtype=float), addressing)
+            before = [float(c.quality) for c in grid.cells]          # evaluated (and cached) before the move
+            for i, p in enumerate(target):
+                grid.update(i, np.array(p, dtype=float))
+            after = [float(c.quality) for c in grid.cells]
+            fresh = [float(c.quality) for c in cls(np.array(target, dtype=float), addressing).cells]
+            return before, after, fresh
+        out = q_safe(run, what)
+        ctx.evaluated(what)
+        if out is not None:
+            before, after, fresh = out
+            for k in range(len(before)):
+                add("equal", f"moved-grid:{what}", codes=[code(before[k]), code(after[k]), code(fresh[k])], tol=50)
+
+    for name, nb in cat["neighbours"].items():
+        base = [list(map(float, cat["hex"][name][k])) for k in range(8)]
+        nbr = [list(map(float, nb[k])) for k in range(8)]
+        pts = base + [p for p in nbr if p not in base]
+        moved_grid("hex", pts, [list(range(8)), [pts.index(p) for p in nbr]], f"hex+neighbour:{name}")
+    for name, cell in cat["quad"].items():
+        base = [list(map(float, cell[k])) for k in range(4)]
+        # a neighbour across side 1-2: the quad translated by its edge 0 -> 1 (shares the two points only for parallelograms,
+        # otherwise a second, separate cell - both are legitimate grids)
+        shift = [base[1][i] - base[0][i] for i in range(3)]
+        nbr = [[p[i] + shift[i] for i in range(3)] for p in base]
+        pts = base + [p for p in nbr if p not in base]
+        moved_grid("quad", pts, [list(range(4)), [pts.index(p) for p in nbr]], f"quad:{name}")
     for name, cell in cat["quad"].items():
         base = [cell[k] for k in range(4)]
         point, vector, scale = similarity(rng)
